@@ -119,23 +119,26 @@ R("eq-linreg-loss-no-io-guard", C, '''        loss = self._ipr._interp(abs(io), 
         pwr = abs(vi * ii)''', '''        loss = self._ipr._interp(abs(io), abs(vi)) * abs(vi) + (abs(vi) - v) * io
         pwr = abs(vi * ii)''', silent=["C02"])
 # ----------------------------------------------------------------------------------------------- C03
-R("c03-allclose-compares-new-with-new", S, "            if np.allclose(np.array(v), np.array(vi), rtol=vtol) and np.allclose(", "            if np.allclose(np.array(vi), np.array(vi), rtol=vtol) and np.allclose(", fires=["C03"])
-R("c03-current-test-uses-vtol", S, "                np.array(i), np.array(ii), rtol=itol\n            ):", "                np.array(i), np.array(ii), rtol=vtol\n            ):", fires=["C03"])
+R("c03-allclose-compares-new-with-new", S, "                np.array(v), np.array(vi), rtol=vtol, atol=0.0\n", "                np.array(vi), np.array(vi), rtol=vtol, atol=0.0\n", fires=["C03"])
+R("c03-current-test-uses-vtol", S, "np.allclose(np.array(i), np.array(ii), rtol=itol, atol=0.0):", "np.allclose(np.array(i), np.array(ii), rtol=vtol, atol=0.0):", fires=["C03"])
 R("c03-carry-before-test", S, "            iters += 1\n            if np.allclose(", "            iters += 1\n            v, i, state = vi, ii, ostate\n            if np.allclose(", fires=["C03"])
 R("c03-counter-inside-if", S, '''            iters += 1
-            if np.allclose(np.array(v), np.array(vi), rtol=vtol) and np.allclose(
-                np.array(i), np.array(ii), rtol=itol
-            ):
-                if not quiet:''', '''            if np.allclose(np.array(v), np.array(vi), rtol=vtol) and np.allclose(
-                np.array(i), np.array(ii), rtol=itol
-            ):
+            if np.allclose(
+                np.array(v), np.array(vi), rtol=vtol, atol=0.0
+            ) and np.allclose(np.array(i), np.array(ii), rtol=itol, atol=0.0):
+                if not quiet:''', '''            if np.allclose(
+                np.array(v), np.array(vi), rtol=vtol, atol=0.0
+            ) and np.allclose(np.array(i), np.array(ii), rtol=itol, atol=0.0):
                 iters += 1
                 if not quiet:''', fires=["C03"])
 R("c03-postcheck-off-by-one", S, "            if iters > maxiter:\n                raise RuntimeError(", "            if iters > maxiter + 1:\n                raise RuntimeError(", fires=["C03"])
 R("c03-postcheck-ge", S, "            if iters > maxiter:\n                raise RuntimeError(", "            if iters >= maxiter + 2:\n                raise RuntimeError(", fires=["C03"])
 R("c03-loop-bound-strict", S, "        while iters <= maxiter:", "        while iters < maxiter:", fires=["C03"])
-R("c03-atol-added", S, "            if np.allclose(np.array(v), np.array(vi), rtol=vtol) and np.allclose(", "            if np.allclose(np.array(v), np.array(vi), rtol=vtol, atol=1.0) and np.allclose(", fires=["C03"])
-R("c03-or-instead-of-and", S, "np.array(vi), rtol=vtol) and np.allclose(", "np.array(vi), rtol=vtol) or np.allclose(", fires=["C03"])
+R("c03-atol-nonzero", S, "np.array(v), np.array(vi), rtol=vtol, atol=0.0\n", "np.array(v), np.array(vi), rtol=vtol, atol=1.0\n", fires=["C03"])
+R("c03-atol-dropped", S, "np.allclose(np.array(i), np.array(ii), rtol=itol, atol=0.0):", "np.allclose(np.array(i), np.array(ii), rtol=itol):", fires=["C03"])
+R("eq-atol-integer-zero", S, "np.allclose(np.array(i), np.array(ii), rtol=itol, atol=0.0):", "np.allclose(np.array(i), np.array(ii), rtol=itol, atol=0):", silent=["C03"])
+R("eq-allclose-positional-tolerances", S, "np.allclose(np.array(i), np.array(ii), rtol=itol, atol=0.0):", "np.allclose(np.array(i), np.array(ii), itol, 0.0):", silent=["C03"])
+R("c03-or-instead-of-and", S, "            ) and np.allclose(np.array(i)", "            ) or np.allclose(np.array(i)", fires=["C03"])
 R("c03-rloss-guard-deleted", C, '''        vo = vi[0] - self._params["rs"] * io * np.sign(vi[0])
         if np.sign(vo) == np.sign(vi[0]):
             return vo, STATE_DEFAULT
@@ -160,7 +163,7 @@ R("c03-unknown-phase-not-rejected", S, '''            if phase not in list(self.
             phase_list = [phase]''', '''            phase_list = [phase]''', fires=["C03", "C06"])
 R("eq-solver-kwargs", S, "            vi, ostate = self._fwd_prop(v, i, phase, state)\n            ii = self._back_prop(vi, i, phase, state)", "            vi, ostate = self._fwd_prop(v, i, phase=phase, state=state)\n            ii = self._back_prop(vi, i, phase=phase, state=state)", silent=["C03", "C04", "C06"])
 R("eq-postcheck-not-le", S, "            if iters > maxiter:\n                raise RuntimeError(", "            if not iters <= maxiter:\n                raise RuntimeError(", silent=["C03"])
-R("eq-allclose-operands-commuted", S, "            if np.allclose(np.array(v), np.array(vi), rtol=vtol) and np.allclose(", "            if np.allclose(np.array(vi), np.array(v), rtol=vtol) and np.allclose(", silent=["C03"])
+R("eq-allclose-operands-commuted", S, "                np.array(v), np.array(vi), rtol=vtol, atol=0.0\n", "                np.array(vi), np.array(v), rtol=vtol, atol=0.0\n", silent=["C03"])
 # ----------------------------------------------------------------------------------------------- C04
 R("c04-converter-sleep-draws-iq", C, '''        if phase_conf and phase not in phase_conf:
             return self._params["iis"]
@@ -297,7 +300,7 @@ R("c16-phases-domain-from-last-source", S, '''            else:
 FIX_REVERT_FIRES = {
     "F1": ["C03", "C01", "C02"], "F2": ["C11"], "F3": ["C12"], "F4": ["C17"], "F5": ["C15"], "F6": ["C14"],
     "F7": ["C16"], "F8": ["C07", "C16"], "F9": ["C05", "C08", "C01"], "F10": ["C08"], "F11": ["C02"],
-    "F12": ["C15"], "F13": ["C14"], "F14": ["C16"], "F15": ["C16"], "F16": ["C09"], "F17": ["C14"],
+    "F12": ["C15"], "F13": ["C14"], "F14": ["C16"], "F15": ["C16"], "F16": ["C09"], "F17": ["C14"], "F18": ["C03"], "F19": ["C03"],
 }
 
 
